@@ -1,4 +1,4 @@
 SPECIFICATION TSpec
-INVARIANTS LineOK
+INVARIANTS LineOK CliOK
 POSTCONDITION Accepted
 CHECK_DEADLOCK FALSE
